@@ -49,7 +49,7 @@ SUITES = {
                      ("km", ["st_insert__*", "st_lookup__*", "st_remove__*", "en_vacant_insert__*", "en_raw_*", "en_occ_*", "rt_retain__*"])],
     },
     "C03": {
-        "quick": [("km-cnt", ["cnt_insert__unsplit", "cnt_insert__split", "cnt_insert__split_empty", "cnt_remove__split", "cnt_clear__split", "cnt_reserve__split"]),
+        "quick": [("km-cnt", ["cnt_insert__unsplit", "cnt_insert__split", "cnt_insert__split_empty", "cnt_remove__split", "cnt_clear__split", "cnt_reserve__split", "cnt_insert3__split_completes"]),
                   ("km", ["st_remove__s8_4one", "st_remove__s8m0_4a", "st_insert__s8_4a", "st_insert__s8_8g4", "st_clear__s8_e", "st_clear__s8m0_4a",
                           "en_occ_remove__s8_4one", "rt_drain_filter__s8_4a_m0111_end", "rt_drain_filter__s8_8g4_m110_end",
                           "it_drain__s8_4a_j1", "rt_retain__s8_8g0"])],
@@ -60,7 +60,7 @@ SUITES = {
     "C04": {
         "quick": [("km-cnt", ["cnt_insert__unsplit", "cnt_insert__split", "cnt_insert__split_empty", "cnt_insert__unallocated",
                               "cnt_shrink_to__split", "cnt_shrink_to__unsplit", "cnt_shrink_to_fit__split",
-                              "cnt_reserve__split", "cnt_reserve__unsplit", "cnt_try_reserve__split", "cnt_with_capacity", "cnt_remove__split"]),
+                              "cnt_reserve__split", "cnt_reserve__unsplit", "cnt_try_reserve__split", "cnt_with_capacity", "cnt_remove__split", "cnt_insert3__split_completes"]),
                   ("km", ["st_insert__s4f_e", "st_insert__u4ft", "cap_shrink_to_fit__s8_e", "cap_shrink_to__s16_4a", "rt_retain__s8m0_4a"])],
         "thorough": [("km-cnt", ["cnt_*"]), ("km", ["st_insert__*", "cap_*", "rt_retain__*"]),
                      ("km-r4", ["cap_shrink_to__s16_4a", "st_insert__s16_8"])],
